@@ -6,7 +6,7 @@ import "testing"
 
 func c09Specs() []*bfsSpec {
 	dl := []string{"bf:0:3", "have:0:1", "unchoke:0", "choke:0", "want:0:1", "want:1:0", "unwant:0:1", "tick",
-		"ans:0:old:full", "ans:0:old:short", "ans:0:old:empty", "ans:0:old:long", "ans:0:old:corrupt", "ans:0:new:full", "ans:0:old:otherbegin",
+		"ans:0:old:full", "ans:0:old:short", "ans:0:old:empty", "ans:0:old:long", "ans:0:old:corrupt", "ans:0:new:full", "ans:0:old:otherbegin", "ansq:0",
 		"rej:0:old", "close:0", "adv:2", "adv:31", "donthave:0:0", "havenone:0", "haveall:0"}
 	return []*bfsSpec{
 		{Name: "c09-1peer-fast", Cfg: worldCfg{Geom: "g2x2", Peers: []peerCfg{{Fast: true, Ext: true, DontHave: 7}}, AutoDrain: true},
@@ -21,7 +21,11 @@ func c09Specs() []*bfsSpec {
 			Depth: 6, DepthT: 8},
 		{Name: "c09-2peers", Cfg: worldCfg{Geom: "g2x2", Peers: []peerCfg{{Fast: true, Ext: true, DontHave: 7}, {}}, AutoDrain: true},
 			Setup:    []string{"haveall:0", "bf:1:3", "unchoke:0", "unchoke:1", "want:0:1", "want:1:0", "tick"},
-			Alphabet: []string{"tick", "ans:0:old:full", "ans:1:old:full", "ans:0:old:long", "ans:1:old:corrupt", "rej:0:old", "choke:1", "close:0", "close:1", "adv:2", "adv:31", "unwant:0:1", "bf:1:1", "stall:1", "resume:1"},
+			Alphabet: []string{"tick", "ans:0:old:full", "ans:1:old:full", "ans:0:old:long", "ans:1:old:corrupt", "ansq:0", "ansq:1", "rej:0:old", "choke:1", "close:0", "close:1", "adv:2", "adv:31", "unwant:0:1", "bf:1:1", "stall:1", "resume:1"},
+			Depth: 5, DepthT: 7},
+		{Name: "c09-queue", Cfg: worldCfg{Geom: "g2x2", Peers: []peerCfg{{Fast: true, Ext: true, DontHave: 7}}, AutoDrain: true},
+			Setup:    []string{"haveall:0", "unchoke:0", "want:0:1", "want:1:0", "cmd:0:0", "cmd:0:1", "cmd:0:2", "cmd:0:3"},
+			Alphabet: []string{"ansq:0", "ans:0:old:full", "ans:0:new:full", "ans:0:old:corrupt", "rej:0:old", "choke:0", "chokesilent:0", "unchoke:0", "close:0", "adv:2", "adv:31", "unwant:0:1", "unwant:1:0", "donthave:0:1", "tick", "cmd:0:2"},
 			Depth: 5, DepthT: 7},
 		{Name: "c09-manual-events", Cfg: worldCfg{Geom: "g2x2", Peers: []peerCfg{{Fast: true, Ext: true, DontHave: 7}, {Fast: true}}, AutoDrain: false},
 			Setup:    []string{"haveall:0", "drain", "haveall:1", "drain", "unchoke:0", "drain", "unchoke:1", "drain", "want:0:1", "tick"},
